@@ -77,7 +77,7 @@ func (r *BufferReader) ReadWire(l int) (Wire, error) {
 	if r.pos >= len(r.buf) && l > 0 {
 		return nil, io.EOF
 	}
-	if r.pos+l > len(r.buf) {
+	if l > len(r.buf)-r.pos {
 		return nil, io.ErrUnexpectedEOF
 	}
 	p := r.pos
@@ -89,7 +89,7 @@ func (r *BufferReader) ReadBuf(l int) (Buffer, error) {
 	if l < 0 {
 		return nil, errors.New("encoding.BufferReader.ReadBuf: negative length")
 	}
-	if r.pos+l > len(r.buf) {
+	if l > len(r.buf)-r.pos {
 		return nil, io.ErrUnexpectedEOF
 	}
 	p := r.pos
@@ -113,7 +113,7 @@ func (r *BufferReader) Range(start, end int) Wire {
 }
 
 func (r *BufferReader) Delegate(l int) ParseReader {
-	if l < 0 || r.pos+l > len(r.buf) {
+	if l < 0 || l > len(r.buf)-r.pos {
 		return NewBufferReader([]byte{})
 	}
 	subBuf := r.buf[r.pos : r.pos+l]
@@ -286,6 +286,10 @@ func (r *WireReader) Skip(n int) error {
 	if n < 0 {
 		return errors.New("encoding.WireReader.Skip: backword skipping is not allowed")
 	}
+	if n > r.Length()-r.Pos() {
+		// r.pos+n must not wrap around
+		return io.EOF
+	}
 	r.pos += n
 	for r.pos > len(r.wire[r.seg]) {
 		r.pos -= len(r.wire[r.seg])
@@ -298,7 +302,7 @@ func (r *WireReader) Skip(n int) error {
 }
 
 func (r *WireReader) Delegate(l int) ParseReader {
-	if l < 0 || r.seg >= len(r.wire) {
+	if l < 0 || r.seg >= len(r.wire) || l > r.Length()-r.Pos() {
 		return NewBufferReader([]byte{})
 	}
 	if r.pos+l <= len(r.wire[r.seg]) {
